@@ -63,7 +63,7 @@ func inspectAll(ts []tensor.Tensor) string {
 	for _, t := range ts {
 		flat, nesting, dims, rect, _ := tensor.VerifInspect(t)
 		tr, dirty, g, targets, _ := tensor.VerifGradState(t)
-		fmt.Fprintf(&b, "%v|%v|%v|%v|%v|%v|%v|%d|%s;", flat, nesting, dims, rect, tr, dirty, g != nil, len(targets), tensor.VerifScalarFields(t))
+		fmt.Fprintf(&b, "%v|%v|%v|%v|%v|%v|%v|%d;", flat, nesting, dims, rect, tr, dirty, g != nil, len(targets))
 	}
 	return b.String()
 }
